@@ -53,7 +53,7 @@ class Recording:
 
 # ------------------------------------------------------------------ pattern generators
 ATOMS = ['a', 'b', 'ab', '[ab]', '.', '\\d', 'x?', 'a*', '(?:ab)+', '', '\\b', '^', '$', '\\n', 'c', '[^a]', 'a|b', '\\w+', ' ',
-         'a{2}', '(?=b)', '(?<!a)', 'é', '.*?', '\\s']
+         'a{2}', '(?=b)', '(?<!a)', 'é', '.*?', '\\s', '(?=(b))', '(?=(?P<la>a)(b)?)', '\\b(?=(\\w+))', '(?<=(a))', '(?=(x?))', 'A', '[A-Z]b']
 
 
 def gen_pattern(rnd, sequential=False):
@@ -64,7 +64,7 @@ def gen_pattern(rnd, sequential=False):
     ngroups = 0
     for _ in range(rnd.choice([1, 2, 3, 4, 5])):
         a = rnd.choice(ATOMS)
-        if sequential and ('|' in a or a in ('(?=b)', '(?<!a)')):
+        if sequential and ('|' in a or '(?=' in a or '(?<' in a or '(?!' in a):
             a = 'a'
         k = rnd.random()
         if ngroups >= 6:
@@ -117,7 +117,8 @@ DSL_OBJECTS = [
     lambda: Pregex('a.b') + GR.Capture(Pregex('$')),
 ]
 
-TEXT_PARTS = ['a', 'b', 'ab', 'x', ' ', '\n', '1', 'c', '', 'aa', 'abab', 'é', 'A', '$', 'a.b', '\t', 'd', 'C', '12', 'ba']
+TEXT_PARTS = ['a', 'b', 'ab', 'x', ' ', '\n', '1', 'c', '', 'aa', 'abab', 'é', 'A', '$', 'a.b', '\t', 'd', 'C', '12', 'ba',
+              '\U0001F600', '\x00', 'ß', 'aé', '\n\n']
 
 
 def gen_text(rnd):
@@ -286,7 +287,8 @@ def verify_c12(M, p, c, t, ctx):
                     for (g, s, e) in row:
                         if g is None:
                             M.law((s, e) == (-1, -1), 'get_captures_and_pos', 'none-pos', 'None capture at %r' % ((s, e),), ctx, 'C12')
-                        else:
+                        elif not rel or (0 <= s and e <= len(base)):
+                            # (a group inside a lookaround may lie outside its match: then only the absolute form can be sliced)
                             M.law(base[s:e] == g, 'get_captures_and_pos', 'slice',
                                   'slice [%d:%d] of %s gives %r, captured %r' % (s, e, 'match' if rel else 'source', base[s:e], g), ctx, 'C12')
             o = M.call(p, 'get_named_captures_and_pos', (t, ie, rel), {}, exp_named_pos(ms, ie, rel), ctx, 'C12')
@@ -295,7 +297,7 @@ def verify_c12(M, p, c, t, ctx):
                 for m, d in zip(ms, o[1]):
                     base = m.group(0) if rel else t
                     for k, (g, s, e) in d.items():
-                        if g is not None:
+                        if g is not None and (not rel or (0 <= s and e <= len(base))):
                             M.law(base[s:e] == g, 'get_named_captures_and_pos', 'slice',
                                   'group %r: slice [%d:%d] gives %r, captured %r' % (k, s, e, base[s:e], g), ctx, 'C12')
 
@@ -478,13 +480,30 @@ def _history_op(M, check, p, pat, c, op, texts, ti, rnd, ctxbase, verify):
             except StopIteration:
                 pass
         elif op == 'operand':
+            # the instance (possibly holding a compiled pattern) is used as an operand; what is derived from it is
+            # a value of its own and must itself agree with re on *its* pattern
+            mk = rnd.choice([lambda: p + 'x', lambda: QU.Optional(p), lambda: GR.Capture(p), lambda: 'y' + p, lambda: OP.Either(p, 'z'),
+                             lambda: p.group(True), lambda: p.group(), lambda: p.capture(), lambda: p.capture('dq'), lambda: p.optional(),
+                             lambda: p.group(True).group(), lambda: p.capture().group(True), lambda: p.concat('Z'), lambda: p.exactly(2)])
             try:
-                q = rnd.choice([lambda: p + 'x', lambda: QU.Optional(p), lambda: GR.Capture(p), lambda: 'y' + p, lambda: OP.Either(p, 'z')])()
-                q.has_match('xyz')
+                q = mk()
             except LIBEXC:
-                pass
-            except Exception:
-                pass
+                q = None
+            if isinstance(q, Pregex) and q is not p:
+                try:
+                    cq = re.compile(str(q), FL)
+                except re.error:
+                    cq = None
+                if cq is not None:
+                    t = texts[ti % len(texts)]
+                    ctx = {'pat': str(q), 'text': t, 'hist': list(ctxbase['hist']) + ['derived-from:' + pat]}
+                    for tt in (t, t.swapcase(), t + 'Zx'):
+                        if check == 'C11':
+                            verify_c11(M, q, cq, tt, ctx)
+                        elif check == 'C12':
+                            verify_c12(M, q, cq, tt, ctx)
+                        elif check == 'C13':
+                            verify_c13(M, q, cq, tt, ctx, False)
         elif op == 'alias':
             alias = p.concat(Pregex())      # documented "returns itself" shortcut
             if rnd.random() < 0.5:
